@@ -41,6 +41,9 @@ NSends(b) ==
 (* faults do not interact with how the status was written or with preset headers: fault points are
    explored for the plain-header, int-status cases only *)
 FaultBase(b) == b.form = "int" /\ b.cl = -1 /\ ~b.ct
+(* a render-phase fault does interact with preset headers and with every body source: it is
+   scheduled for every int-status case (quick tier: two status codes) *)
+RenderBase(b) == b.form = "int" /\ (Tier = "quick" => b.code \in {200, 204})
 (* the fault points of a case: none; every read of a stream / emitter that is really iterated
    (the read that reports exhaustion included); every send *)
 FaultsOf(b) ==
@@ -56,7 +59,8 @@ MCInit ==
        LET b == Case(iface, code, form, method, text, data, media, st, sse, cl, ct, "none", 0)
        IN  /\ (Tier = "quick" /\ sse >= 0) => st[1] = "none"          \* quick tier: thinner cross product
            /\ (Tier = "quick" /\ iface = "wsgifw") => st[1] = "file"
-           /\ \E f \in (IF FaultBase(b) THEN FaultsOf(b) ELSE {<<"none", 0>>}) : Start([b EXCEPT !.fk = f[1], !.fa = f[2]])
+           /\ \E f \in (IF FaultBase(b) THEN FaultsOf(b) ELSE {<<"none", 0>>})
+                        \cup (IF RenderBase(b) THEN {<<"render", 0>>} ELSE {}) : Start([b EXCEPT !.fk = f[1], !.fa = f[2]])
 
 (* the disjuncts of ResponseEmit!Next are operator names, so TLC's coverage is per emission step *)
 MCNext == Next
@@ -64,10 +68,10 @@ MCNext == Next
 (* behaviour export: the finished emission of every case with the values the property fixes *)
 EvTuple(e) == <<e.k, e.n, e.more, e.src, e.idx>>
 Emit == (pc = "done") =>
-    PrintT(ToJson([c |-> c, ev |-> [i \in DOMAIN ev |-> EvTuple(ev[i])],
+    PrintT(ToJson([c |-> c0, eff |-> c, ev |-> [i \in DOMAIN ev |-> EvTuple(ev[i])],
                    cl |-> IF Starts(ev) > 0 THEN StartOf(ev).cl ELSE -2,
                    ct |-> IF Starts(ev) > 0 THEN StartOf(ev).ct ELSE "",
                    begun |-> begun, closes |-> closes, raised |-> raised, sendFailed |-> sendFailed,
                    chosen |-> Chosen(c), bodiless |-> Bodiless(c), typeless |-> Typeless(c),
-                   lenreq |-> LengthRequired(c), full |-> ExpectedPieces(c)]))
+                   lenreq |-> LengthRequired(c), precreq |-> ~RenderFaulted(c), full |-> ExpectedPieces(c)]))
 =================================================================================
